@@ -5,6 +5,7 @@ import RosedVerif.Model.InstAFacts
 import RosedVerif.Model.ParaLemmas
 import RosedVerif.Model.BridgeEditorOps
 import RosedVerif.Model.BridgeEditorParas
+import RosedVerif.Model.ParaStructure
 namespace RosedVerif.Props
 open RosedVerif
 
@@ -83,5 +84,101 @@ theorem C11_indentOpts_code_points_para {V : List (List Int)} (hV : VocabStable 
     Editor.indentOpts cxA ed.flat level o.flat =
       (Editor.indentOpts cxB ed level o).map Editor.flat :=
   indentOpts_bridge_para hV ed ht level o hpp hG hi
+
+open RosedVerif.ParaStructure
+
+/-- **PreserveParagraphs, separator without visible affixes** (`AffixFree`: decidable; holds for `\n\n` with `\n`, for any repetition of the line separator, and for an unbordered line separator that is prefix and suffix of the paragraph separator), any well-formed context — arbitrary code points included — and any editor: Wrap returns the paragraph-separator join of `wrapPara` applied to each paragraph; every paragraph separator stays in place (same number of pieces), each piece depends on its own paragraph only, the Options are the receiver's -/
+theorem C11_wrap_paragraphwise {α : Type} [DecidableEq α] (cx : Ctx α) (hs : cx.Sane)
+    (ed : Editor α)
+    (width : Int)
+    (o : Options α)
+    (hpp : (o.withDefaults cx).preservePara = true)
+    (haf : AffixFree (o.withDefaults cx)) :
+    ParagraphWise ed (o.withDefaults cx) (wrapPara cx width (o.withDefaults cx).lineSep)
+      (ed.wrapOpts cx width o) :=
+  wrapOpts_paragraphWise cx hs ed width o hpp haf
+
+/-- the same for Justify -/
+theorem C11_justify_paragraphwise {α : Type} [DecidableEq α] (cx : Ctx α) (hs : cx.Sane)
+    (ed : Editor α)
+    (width : Int)
+    (o : Options α)
+    (hpp : (o.withDefaults cx).preservePara = true)
+    (haf : AffixFree (o.withDefaults cx)) :
+    ParagraphWise ed (o.withDefaults cx)
+      (justifyParaWith (fun l => justified cx l width) (o.withDefaults cx).lineSep
+        (o.withDefaults cx).justifyLast)
+      (ed.justifyOpts cx width o) :=
+  justifyOpts_paragraphWise cx hs ed width o hpp haf
+
+/-- the same for Align (Left, Right, Center) -/
+theorem C11_align_paragraphwise {α : Type} [DecidableEq α] (cx : Ctx α) (hs : cx.Sane)
+    (ed : Editor α)
+    (align width : Int)
+    (o : Options α)
+    (hal : align = Gen.alignLeft ∨ align = Gen.alignRight ∨ align = Gen.alignCenter)
+    (hpp : (o.withDefaults cx).preservePara = true)
+    (haf : AffixFree (o.withDefaults cx)) :
+    ParagraphWise ed (o.withDefaults cx)
+      (alignParaWith (fun l => alignFn cx align l width) (o.withDefaults cx).lineSep)
+      (ed.alignOpts cx align width o) :=
+  alignOpts_paragraphWise cx hs ed align width o hal hpp haf
+
+/-- the same for Indent — for EVERY separator pair (the Indent callback ignores the affixes) -/
+theorem C11_indent_paragraphwise {α : Type} [DecidableEq α] (cx : Ctx α) (ed : Editor α)
+    (level : Int)
+    (o : Options α)
+    (hl : 1 ≤ level)
+    (hpp : (o.withDefaults cx).preservePara = true) :
+    ParagraphWise ed (o.withDefaults cx)
+      (indentPara (List.replicate level.toNat (o.withDefaults cx).indentStr).flatten
+        (o.withDefaults cx).lineSep (o.withDefaults cx).noTrailing)
+      (ed.indentOpts cx level o) :=
+  indentOpts_paragraphWise cx ed level o hl hpp
+
+/-- … and the per-paragraph result IS the result for the single paragraph: `wrapPara` of a paragraph is the text of the non-paragraph Wrap of that paragraph as an editor of its own (trailing-separator rule included; this is what defect D15 violated) -/
+theorem C11_wrap_single {α : Type} [DecidableEq α] (cx : Ctx α) (hs : cx.Sane)
+    (width : Int)
+    (o : Options α)
+    (p : List α) :
+    (Editor.root p (single o)).wrapOpts cx width (single o) =
+      .ok (Editor.root (wrapPara cx width (o.withDefaults cx).lineSep p) (single o)) :=
+  wrapOpts_single cx hs width o p
+
+/-- the same link for Align (unbordered line separator) -/
+theorem C11_align_single {α : Type} [DecidableEq α] (cx : Ctx α) (align width : Int)
+    (o : Options α)
+    (hal : align = Gen.alignLeft ∨ align = Gen.alignRight ∨ align = Gen.alignCenter)
+    (hsep : (o.withDefaults cx).lineSep ≠ [])
+    (hu : Unbordered (o.withDefaults cx).lineSep)
+    (p : List α) :
+    (Editor.root p (single o)).alignOpts cx align width (single o) =
+      .ok (Editor.root (alignParaWith (fun l => alignFn cx align l width)
+        (o.withDefaults cx).lineSep p) (single o)) :=
+  alignOpts_single cx align width o hal hsep hu p
+
+/-- the same link for Justify -/
+theorem C11_justify_single {α : Type} [DecidableEq α] (cx : Ctx α) (hs : cx.Sane)
+    (hd : cx.dLineSep ≠ [])
+    (width : Int)
+    (o : Options α)
+    (hu : Unbordered (o.withDefaults cx).lineSep)
+    (p : List α) :
+    (Editor.root p (single o)).justifyOpts cx width (single o) =
+      .ok (Editor.root (justifyParaWith (fun l => justified cx l width)
+        (o.withDefaults cx).lineSep (o.withDefaults cx).justifyLast p) (single o)) :=
+  justifyOpts_single cx hs hd width o hu p
+
+/-- the same link for Indent -/
+theorem C11_indent_single {α : Type} [DecidableEq α] (cx : Ctx α) (level : Int)
+    (o : Options α)
+    (hl : 1 ≤ level)
+    (p : List α) :
+    (Editor.root p { o with preservePara := false }).indentOpts cx level
+        { o with preservePara := false } =
+      .ok (Editor.root (indentPara (List.replicate level.toNat (o.withDefaults cx).indentStr).flatten
+        (o.withDefaults cx).lineSep (o.withDefaults cx).noTrailing p)
+        { o with preservePara := false }) :=
+  indentOpts_single cx level o hl p
 
 end RosedVerif.Props
